@@ -547,6 +547,7 @@ impl<'a> Gen<'a> {
                 6 if self.p.lists && depth < self.p.max_depth && !prev_list => self.list(depth + 1),
                 7 if depth < self.p.max_depth => self.quote(depth + 1),
                 8 if !blocks.is_empty() => Blk::Rule(self.rng.below(3)),
+                9 if self.p.tables && !blocks.is_empty() => self.table(),
                 _ => self.para(),
             };
             // a quote directly inside a quote would merge with it: keep a paragraph first
@@ -565,6 +566,15 @@ impl<'a> Gen<'a> {
     pub fn doc(&mut self) -> Doc {
         let n = self.rng.range(1, self.p.max_blocks);
         let mut blocks: Vec<Blk> = vec![];
+        // now and then an existing note without any block (empty file, or front matter only)
+        if self.p.force_title.is_none() && self.rng.chance(1, 30) {
+            let meta = if self.p.meta && self.rng.chance(1, 2) {
+                Some(vec![format!("title: {}", self.words.next(self.rng, false))])
+            } else {
+                None
+            };
+            return Doc { meta, blocks };
+        }
         let title = self.p.force_title.unwrap_or_else(|| self.rng.chance(3, 4));
         if title && self.p.headings {
             blocks.push(self.heading(1));
